@@ -14,6 +14,21 @@ CLAIMED = {
          "Trusted: Lean kernel; the transcription of binascii (validated differentially on every run).", "DESIGN.md §5 C14"),
  "C20": ("Theorem auth_mono: for every response and every library behaviour, acceptance under a policy implies acceptance with the same result under every looser policy (UV not required, origin superset, string <-> singleton list); tie: the relation checked on code runs for the whole fault stream, plus equality of outcomes across input forms (text, dict, record x bytes/bytes subclass/memoryview).",
          "Trusted: Lean kernel; input forms other than the record form are Python runtime typing (tie only); registration monotonicity is added with the registration model.", "DESIGN.md §5 C20"),
+
+ "C02": ("Theorem C02.sound (all formats, all inputs, all library behaviours): an accepted registration has client data of type webauthn.create with the expected challenge and an expected origin, an attestation object whose authenticator data carries SHA-256(RP ID), UP unless waived, UV when required, AT with a non-empty credential id and a key whose algorithm is allowed, id = b64url(raw_id), one of the seven formats, and an empty statement map for 'none'; reject_any_deviation is the contrapositive. Tie: simulator over 7 formats + packed-self x ceremony-level catalogue with the statement regenerated to stay valid.",
+         "Trusted: Lean kernel; oracles; hand-written model validated by the correspondence run on every case.", "DESIGN.md §5 C02"),
+ "C03": ("One theorem per signed format (packed x5c/self, fido_u2f, tpm, apple, android_key, safetynet) and C03.registration wiring them to accepted registrations: acceptance implies every declared rule - signature over authData||clientDataHash by the right key under the declared scheme, U2F single P-256 cert / zero AAGUID / EC2 key, TPM version, magic, certify type, extraData hash, Name = pubArea.nameAlg id || digest (tpm_name_is_name_of_pubarea), key agreement and AIK profile, Apple nonce and key equality, Android Key challenge / key equality / allApplications absent / origin / purpose, SafetyNet nonce / basicIntegrity / CN / RS256 / timestamp / JWS signature. Tie: per-format fault catalogues (96 faults), singles and pairs, with real certificates and signatures.",
+         "Trusted: Lean kernel; X.509/ASN.1 parsing, OpenSSL path validation and signature verification are oracle views.", "DESIGN.md §5 C03"),
+ "C04": ("Theorems: enforced (the chain oracle is asked with exactly the RP's roots for that format plus the regenerated built-in roots as trusted set and exactly x5c[1:] as untrusted set, and must answer ok when anchors are in force), isolation (the root list depends on the mapping only through the entry for the response's format), unchecked_when_no_anchor (no chain query when no anchors: packed/u2f/tpm). Tie: CA simulator over chain shapes x root configurations x 12 chain faults with expected verdict known by construction.",
+         "Trusted: Lean kernel; OpenSSL's notion of a valid chain is an oracle.", "DESIGN.md §5 C04"),
+ "C05": ("Theorems: dispatch_complete / curves_complete / vendor_ids (every supported algorithm, curve and every id of the TCG vendor registry is accepted by the regenerated tables), reg_fidelity (the returned record equals what the authenticator data says: id, key bytes, counter, AAGUID text, format, UV, BE/BS, raw attestation object), auth_complete / reg_complete (acceptance is equivalent to the acceptance normal form - nothing else can reject). Tie: conformant ceremonies over the product space must be accepted by the real code with exactly the expected record.",
+         "Trusted: Lean kernel; honest-library hypotheses; full encode->verify completeness for every format is covered by the tie, not by a closed-form theorem.", "DESIGN.md §5 C05"),
+ "C06": ("PARTIAL (cryptographic residue). Theorems: binding_auth / binding_registration (the signed/nonce/extraData material is exactly raw authenticatorData || SHA-256(raw clientDataJSON) per format), bitflip_auth (any change to authenticator data, client data or signature of an accepted assertion is rejected, under the named hypotheses UniqueSig, HashLen32, NoCollision). Tie: every bit position flipped for each accepted ceremony. Known finding F7: fido-u2f's signature does not cover flags/counter/non-coordinate key bytes.",
+         "Trusted: Lean kernel; the cryptographic idealisations are hypotheses, not theorems.", "DESIGN.md §5 C06"),
+ "C08": ("Theorems: returned_key_decodes (the key bytes registration returns decode, with an allowed alg, and the id is non-empty), chain (authentication against the returned key accepts exactly the acceptance normal form), cross (under UniqueKey an assertion valid under one key is rejected against a stored key decoding to another). Tie: register -> authenticate chains for every format x algorithm and all ordered cross pairs through the real API.",
+         "Trusted: Lean kernel; UniqueKey idealisation; the CBOR re-encoding round trip is covered by C11's theorems.", "DESIGN.md §5 C08"),
+ "C17": ("PARTIAL (clock and OpenSSL comparison are runtime). Theorems on the regenerated SafetyNet guards: window (accepted iff |ts - 1000*floor(t)| <= 10 s), window_real_time (the +-1 s truncation tolerance), wired (SafetyNet acceptance implies the window holds for the clock read in this call), clock_per_call. Tie: real code and model under an LD_PRELOAD controlled clock, dense around every certificate validity boundary and the four SafetyNet boundaries, with clock moves between repeated verifications.",
+         "Trusted: Lean kernel; fake-clock shim; OpenSSL's time comparison.", "DESIGN.md §5 C17"),
 }
 PENDING_REASON = "check under construction in this round (model stage not yet committed); see DESIGN.md §9 staging"
 
